@@ -67,9 +67,18 @@ func init() {
 				// the acknowledgement of the handler's "create transaction" is late: the transaction is in the log, its
 				// events flow and the controllers work on it while the handler has not even subscribed yet
 				p.Profile = "answers+late-ack"
-				p.Knobs.LateAck = []string{"transactions/append"}
-				p.Sched.Policy = []string{"window", "starve"}[g.pick(2)]
-				p.Sched.Starve = []string{"ack/transactions/append", "ack/transactions/append,cli/"}[g.pick(2)]
+				switch g.pick(3) {
+				case 0, 1:
+					p.Knobs.LateAck = []string{"transactions/append"}
+					p.Sched.Policy = []string{"window", "starve"}[g.pick(2)]
+					p.Sched.Starve = []string{"ack/transactions/append", "ack/transactions/append,cli/"}[g.pick(2)]
+				default:
+					// the answer of the handler's replay read is late: what it read is stale when the handler sees it
+					// (reads by id are the handlers'; the controllers read the log by index)
+					p.Knobs.LateAck = [][]string{{"transactions/get/tx"}, {"transactions/get/tx", "transactions/append"}}[g.pick(2)]
+					p.Sched.Policy = []string{"window", "starve", "rand"}[g.pick(3)]
+					p.Sched.Starve = []string{"ack/transactions/get/tx", "ack/transactions"}[g.pick(2)]
+				}
 			}
 			if g.chance(1, 4) {
 				p.Knobs.CancelLate = 1 + g.pick(6)
